@@ -253,7 +253,7 @@ def malformed_stream(ck, tmp, n_env):
         # single-node replacement
         picked = spans if ck.deep else rng.sample(spans, min(len(spans), 25))
         for sp in picked:
-            reps = (REPRESENTATIVES + TRUNCATED) if ck.deep else rng.sample(REPRESENTATIVES, 4) + rng.sample(TRUNCATED, 2)
+            reps = (REPRESENTATIVES + rng.sample(TRUNCATED, 8)) if ck.deep else rng.sample(REPRESENTATIVES, 4) + rng.sample(TRUNCATED, 2)
             for rep in reps:
                 inputs.append((fix_wrappers(env, sp, rep), "node replaced (wrappers rebuilt)"))
                 if rng.random() < 0.3:
